@@ -176,33 +176,24 @@ Definition find (c : Z) (s : list Z) (start : Z) : Z := find_from c s 0 start.
 Definition slice_to (s : list Z) (e : Z) : list Z := firstn (Z.to_nat e) s.
 Definition slice_from (s : list Z) (b : Z) : list Z := skipn (Z.to_nat b) s.
 
-Fixpoint count_char (c : Z) (s : list Z) : Z :=
+(* the inner while of _parseparam: a scan from the left.  [s] is the text
+   from index [e] on, [quoted] the flag, the result the value of [end] when
+   the loop is left: inside a quoted string a backslash escapes the next
+   character (end += 1 twice; that is len(s) + 1 when the backslash is the
+   last character, which the slices take as len(s), as Python does), a
+   double quote toggles the flag, the first ';' outside quotes breaks *)
+Fixpoint scan_end (s : list Z) (quoted : bool) (e : Z) : Z :=
   match s with
-  | [] => 0
-  | x :: r => (if x =? c then 1 else 0) + count_char c r
-  end.
-(* s.count(ab) for a two-character pattern with a <> b *)
-Fixpoint count_pair (a b : Z) (s : list Z) : Z :=
-  match s with
-  | [] => 0
-  | x :: r =>
-      match r with
-      | y :: r' => if (x =? a) && (y =? b) then 1 + count_pair a b r'
-                   else count_pair a b r
-      | [] => 0
-      end
-  end.
-
-(* (s.count('"', 0, end) - s.count('\\"', 0, end)) % 2 *)
-Definition quote_open (s : list Z) (e : Z) : bool :=
-  negb ((count_char 34 (slice_to s e) - count_pair 92 34 (slice_to s e)) mod 2
-        =? 0).
-(* inner while of _parseparam: end moves to a later ';' or to -1 *)
-Fixpoint pp_end (fuel : nat) (s : list Z) (e : Z) : Z :=
-  match fuel with
-  | O => e
-  | S f => if (0 <? e) && quote_open s e
-           then pp_end f s (find 59 s (e + 1)) else e
+  | [] => e                                        (* end < len(s) fails *)
+  | c :: r =>
+      if quoted && (c =? 92) then
+        match r with
+        | _ :: r' => scan_end r' quoted (e + 2)
+        | [] => e + 2
+        end
+      else if c =? 34 then scan_end r (negb quoted) (e + 1)
+      else if (c =? 59) && negb quoted then e      (* break *)
+      else scan_end r quoted (e + 1)
   end.
 (* list(_parseparam(s)) *)
 Fixpoint parseparam_fuel (fuel : nat) (s : list Z) : list (list Z) :=
@@ -212,8 +203,7 @@ Fixpoint parseparam_fuel (fuel : nat) (s : list Z) : list (list Z) :=
       match s with
       | c :: s1 =>
           if c =? 59 then
-            let e1 := pp_end (List.length s1) s1 (find 59 s1 0) in
-            let e := if e1 <? 0 then len s1 else e1 in
+            let e := scan_end s1 false 0 in
             strip_u (slice_to s1 e) :: parseparam_fuel f (slice_from s1 e)
           else []
       | [] => []
@@ -705,14 +695,40 @@ Definition headers_decode (b : bytes) (p : part) : Prop :=
     part_meta hs b = (Some (p_name p), p_filename p, expected_type p) /\
     lz_eqb (expected_type p) (s2l "application/x-www-form-urlencoded") = false /\
     lz_eqb (slice_to (expected_type p) 10) (s2l "multipart/") = false.
-(* a part the round trip is stated for: no LF in name, filename and media
+(* a part the round trip is proved for: no LF in name, filename and media
    type (they are written into header lines), headers that decode, and no
-   line of the content is a delimiter line *)
+   line of the content is a delimiter line.  ([headers_decode] is proved for
+   every [part_wf] part below; the theorems are stated with [part_wf].) *)
 Definition part_ok (b : bytes) (p : part) : Prop :=
   ~ In 10 (p_name p) /\
   (forall f, p_filename p = Some f -> ~ In 10 f) /\
   (forall t, p_ctype p = Some t -> ~ In 10 t) /\
   headers_decode b p /\
+  no_delim_line b (p_content p).
+(* The same, with the header codec discharged: explicit conditions on what
+   the encoder writes into header lines.
+   [scalar]: a code point UTF-8 can encode (Python refuses lone surrogates).
+   [hdr_text]: encodable and free of CR and LF (either would end the header
+   line; RFC 7578 encoders percent-encode them).  Everything else is allowed
+   in names and filenames: blanks, quotes, semicolons, backslashes anywhere,
+   controls, non-ASCII.
+   [ctype_ok]: a media type as the property compares it -- header text
+   without ';' (no parameters) and without blanks at either end -- that is
+   read as an atomic part (nested multipart/* and urlencoded parts are not
+   modelled). *)
+Definition scalar (c : Z) : bool :=
+  (0 <=? c) && (c <? 1114112) && negb ((55296 <=? c) && (c <=? 57343)).
+Definition hdr_char (c : Z) : bool :=
+  scalar c && negb (c =? 10) && negb (c =? 13).
+Definition hdr_text (s : list Z) : bool := forallb hdr_char s.
+Definition ctype_ok (t : list Z) : bool :=
+  hdr_text t && negb (existsb (Z.eqb 59) t) && lz_eqb (strip_u t) t &&
+  negb (lz_eqb t (s2l "application/x-www-form-urlencoded")) &&
+  negb (lz_eqb (slice_to t 10) (s2l "multipart/")).
+Definition part_wf (b : bytes) (p : part) : Prop :=
+  hdr_text (p_name p) = true /\
+  match p_filename p with Some f => hdr_text f = true | None => True end /\
+  match p_ctype p with Some t => ctype_ok t = true | None => True end /\
   no_delim_line b (p_content p).
 (* the request Content-Type value names a multipart type and boundary b *)
 Definition ctype_names (ctv : list Z) (b : bytes) : Prop :=
